@@ -1,6 +1,7 @@
 import Martian.Go.Strings
 import Martian.Go.Strconv
 import Martian.Go.Path
+import Martian.Model.MessageView
 /-! Driver ops that expose the stdlib models so the harness can compare them with real Go. -/
 namespace Martian.Drv.GoLib
 open Martian Martian.Go
@@ -18,6 +19,8 @@ def step (toks : List String) : Option String :=
       pure (showBytesList (split b (UInt8.ofNat n)))
   | ["golib.trimleft", s, cut] => do let b ← unhex s; let c ← unhex cut; pure (hex (trimLeft b c))
   | ["golib.trimspace", s] => (unhex s).map fun b => hex (trimSpace b)
+  | ["golib.dechunk", s] => (unhex s).map fun b =>
+      match MessageView.dechunk b with | some d => s!"some {hex d}" | none => "none"
   | ["golib.tolower", s] => (unhex s).map fun b => hex (toLower b)
   | ["golib.hassuffix", s, p] => do let b ← unhex s; let c ← unhex p; pure (toString (hasSuffix b c))
   | _ => none
